@@ -93,6 +93,8 @@ type VC struct {
 	preamble []string // axioms instantiated for this VC (spec functions etc.)
 	recInfo  map[string]*recInfo
 	replayKeys []string
+	allocBlock map[string]*ssa.BasicBlock // allocation constants (and values defined from them) -> block
+	loops      []*loopInfo
 }
 
 func (vc *VC) fresh(prefix, sort string) string {
@@ -455,8 +457,22 @@ func (vc *VC) elemRead(st *State, s string, i string, elemT types.Type) Term {
 func (vc *VC) elemWrite(st *State, s string, i string, elemT types.Type, val string) {
 	name, sort := vc.elemVar(elemT)
 	cur := vc.get(st, name, sort)
-	inner := sx("store", sx("select", cur, sx("sl_ref", s)), sx("sl_idx", s, i), val)
-	vc.set(st, name, sort, sx("store", cur, sx("sl_ref", s), inner))
+	ref := slRef(s)
+	inner := sx("store", sx("select", cur, ref), sx("sl_idx", s, i), val)
+	vc.setAt(st, name, sort, ref, inner)
+}
+
+// slRef gives the backing reference of slice term s, simplified when s is a literal mk-slice.
+func slRef(s string) string {
+	if strings.HasPrefix(s, "(mk-slice ") {
+		rest := s[len("(mk-slice "):]
+		if rest != "" && rest[0] != '(' {
+			if i := strings.IndexByte(rest, ' '); i > 0 {
+				return rest[:i]
+			}
+		}
+	}
+	return sx("sl_ref", s)
 }
 
 // load reads through an address term.
@@ -576,15 +592,41 @@ func (vc *VC) store(st *State, p Term, val Term) {
 
 // allocRef returns a fresh, non-nil, not previously existing reference.
 func (vc *VC) allocRef(prefix string) string {
-	r := vc.fresh(prefix, "Int")
+	// allocation constants are named after the allocating instruction so that the names are
+	// the same in the discovery pass and in the real pass
+	r := "al_" + prefix
+	for i := 2; vc.declared[r]; i++ {
+		r = fmt.Sprintf("al_%s_%d", prefix, i)
+	}
+	vc.declare(r, "Int")
 	vc.hasAlloc = true
 	cs := []string{sx(">", r, "0"), not(sx("is_old", r))}
 	for _, a := range vc.allocs {
 		cs = append(cs, not(sx("=", r, a)))
 	}
 	vc.allocs = append(vc.allocs, r)
+	if vc.curBlock != nil {
+		vc.allocBlock[r] = vc.curBlock
+		// the object did not exist when any enclosing loop started
+		for _, li := range vc.loops {
+			if li.blocks[vc.curBlock] {
+				vc.declarePre(li.ordinal)
+				cs = append(cs, not(sx(fmt.Sprintf("pre_L%d", li.ordinal), r)))
+			}
+		}
+	}
 	vc.assume(and(cs...))
 	return r
+}
+
+// declarePre declares pre_Lk ("existed when loop k started"); whatever existed at function entry did.
+func (vc *VC) declarePre(k int) {
+	n := fmt.Sprintf("pre_L%d", k)
+	if vc.declared[n] {
+		return
+	}
+	vc.declareFun(n, []string{"Int"}, "Bool")
+	vc.preamble = append(vc.preamble, fmt.Sprintf("(assert (forall ((x Int)) (! (=> (is_old x) (%s x)) :pattern ((%s x)))))", n, n))
 }
 
 // zeroInit stores the zero value into a freshly allocated object of type t.
@@ -601,7 +643,7 @@ func (vc *VC) zeroInit(st *State, ref string, t types.Type) {
 		return
 	}
 	name, sort := vc.cellVar(t)
-	vc.set(st, name, sort, sx("store", vc.get(st, name, sort), ref, vc.ss().zero(t)))
+	vc.setAt(st, name, sort, ref, vc.ss().zero(t))
 }
 
 // strLit builds the Str term of a Go string constant.
